@@ -62,7 +62,7 @@ Arrival(V) ==
       rep(k) == CHOOSE x \in {y \in SeqToSet(V) : K(y) = k} :
                    \A y \in SeqToSet(V) : K(y) = k => OtherKey(x.id) <= OtherKey(y.id)
       reps == {rep(k) : k \in keys}
-      tops == SortSeqBy(SetToSeq(reps), LAMBDA a, b : a.id < b.id)
+      tops == SortSetBy(reps, LAMBDA a, b : a.id < b.id)
   IN [tops |-> tops, inner |-> [i \in DOMAIN tops |-> InnerOf(V, K, Before, Opt(cfg), tops[i])]]
 
 OffByOne(V) ==
